@@ -671,8 +671,9 @@ class Stage:
         >>> ocp.set_next(x, -x)
         """
         self._set_transcribed(False)
-        self._state_next[state] = next
         def action(state, next):
+            if state not in self.states and state not in self.qstates:
+                raise Exception("You used set_next on a non-state: " + str(state))
             self._state_next[state] = next
         for_all_primitives(state, next, action, "First argument to set_next must be a state or a simple concatenation of states")
         assert not self._state_der
